@@ -48,6 +48,8 @@ class FCtx(object):
             return g[0][0] == "const" and isinstance(g[0][1], (bool, type(None), int))
         live = []
         for ev in self.events:
+            if ev.kind == "call" and (ev.value is None or ev.value[0] != "call"):
+                continue          # a call that was folded away (os.fspath(p), hasattr(p, "__fspath__") ...)
             if any(const_guard(g) and bool(g[0][1]) != g[1] for g in ev.guards):
                 continue
             if any(const_guard(g) for g in ev.guards):
